@@ -139,7 +139,8 @@ def run_job(job):
                 if len(samples) < 2 and not r[0]:
                     samples.append(dict(r[2], outcome_ok=r[1]))
 
-        bases = [((None, None), None), ((b"user-0", b"server-0"), b"ctx-0")]
+        bases = [((None, None), None), ((b"user-0", b"server-0"), b"ctx-0"), ((b"", b""), b""), ((b"u", b""), None), ((b"", b"s"), None), ((None, b""), b"c"),
+                 ((b"U" * 300, b"S" * 300), b"C" * 300)]
         for (bu, bs), bc in bases:
             run((bu, bs), (bu, bs, bc), (bu, bs, bc), "baseline")
             # single-slot single-site deviations
